@@ -13,7 +13,7 @@ import (
 
 func init() {
 	register("C16",
-		"RFULL: in mailbox, no protocol field is read from an io.Reader-typed value with a bare Read call; every transport read of the handshake and of the record layer goes through io.ReadFull/io.ReadAtLeast and its error is tested before the buffer is used (short reads of any granularity therefore cannot change the outcome); the reader handed to readMsgPattern/readTokens/DoHandshake/ReadMessage/ReadHeader/ReadBody is always the caller's own reader parameter or transport field, never a wrapper created on the way (no read-ahead across act or record boundaries). FLUSH: in Machine.Flush the pending slice is replaced by x[n:] with n the count of that very Write before the error is looked at, for header and body; an error while writing the header returns before the body is touched; in WriteMessage both Encrypt calls are dominated by the 'nothing pending' test (so the nonce cannot advance and the pending record cannot be overwritten) and by the 65535 bound; only WriteMessage and Flush write the pending slices; NoiseConn.Write on top of it adds each Flush count before testing that Flush's error and cuts contiguous chunks (RDC-3 as in C15). DUPLEX (as C15): a pending record shares no storage with the receive path, so what a later Flush completes is still what was encrypted. FLUSH also: every store of Flush to a pending slice is pending[n:] with n the count returned by its Write (a record whose nonces are consumed is never dropped). FLUSH also: the record-layer wrappers of NoiseConn (ReadNextMessage/Header/Body, WriteMessage, Flush) reach the Machine method of their role on every path and return its results; the only accepted shortcut is (0, nil) from Flush under an empty pending body. Not decided: the MAC-byte arithmetic of the count returned by Flush (piecewise-linear in the write count; sampled by TestFlush only).",
+		"RFULL: in mailbox, no protocol field is read from an io.Reader-typed value with a bare Read call; every transport read of the handshake and of the record layer goes through io.ReadFull/io.ReadAtLeast and its error is tested before the buffer is used (short reads of any granularity therefore cannot change the outcome); the reader handed to readMsgPattern/readTokens/DoHandshake/ReadMessage/ReadHeader/ReadBody is always the caller's own reader parameter or transport field, never a wrapper created on the way (no read-ahead across act or record boundaries). FLUSH: in Machine.Flush the pending slice is replaced by x[n:] with n the count of that very Write before the error is looked at, for header and body; an error while writing the header returns before the body is touched; in WriteMessage both Encrypt calls are dominated by the 'nothing pending' test (so the nonce cannot advance and the pending record cannot be overwritten) and by the 65535 bound; only WriteMessage and Flush write the pending slices; NoiseConn.Write on top of it adds each Flush count before testing that Flush's error and cuts contiguous chunks (RDC-3 as in C15). DUPLEX (as C15): a pending record shares no storage with the receive path, so what a later Flush completes is still what was encrypted. FLUSH also: every store of Flush to a pending slice is pending[n:] with n the count returned by its Write (a record whose nonces are consumed is never dropped). FLUSH also: the record-layer wrappers of NoiseConn (ReadNextMessage/Header/Body, WriteMessage, Flush) reach the Machine method of their role on every path and return its results; the only accepted shortcut is (0, nil) from Flush under an empty pending body. RFULL also: io.ReadAtLeast counts as an exact-length read only with min = len(buf). Not decided: the MAC-byte arithmetic of the count returned by Flush (piecewise-linear in the write count; sampled by TestFlush only).",
 		[]string{"io.ReadFull returns an error unless the buffer was filled completely; io.Writer.Write returns 0 <= n <= len(p)"},
 		runC16)
 }
